@@ -86,7 +86,7 @@ def _cases(draw):
     return {"n": n, "par": par, "max_tasks": mt, "fail": fails, "unpicklable": unp, "tolerate": tol, "use_run": use_run,
             "schedule": sched, "delays": delays, "fail_kind": draw(st.integers(0, 8)),
             "callback": ({"progress_logger": True, "raise_for": []} if (big or draw(st.integers(0, 7)) == 0) else
-                         {"in_thread": draw(st.booleans()),
+                         {"in_thread": draw(st.booleans()), "exc_kind": draw(st.integers(0, 1)),
                           "raise_for": sorted(draw(st.sets(st.integers(0, max(0, n - 1)), max_size=2)))}
                          if (n and tol and not use_run and draw(st.integers(0, 3)) == 0) else None),
             "gen_task": gen_task,
